@@ -96,14 +96,22 @@ def parse_code(part):
     return [tuple(vals[1 + 3 * i: 4 + 3 * i]) for i in range(vals[0])]
 
 
-HANG_RE = re.compile(r"<<-?[ \t]*(''|\"\")(?=[ \t;|&<>()])[^\n]*[ \t]\Z")
+HANG_RE = re.compile(r"<<[^\n]*\Z")
+PREDICT_RE = re.compile(r"<<-?[ \t]*(''|\"\"|\"'\"|'\"')(?=[ \t;|&<>()])[^\n]*([ \t]|[ \t;|&<>()]#[^\n]*)\Z")
 
 
 def hang_class(line):
-    """lines whose last here-doc operator has an empty quoted tag ('' or "") that is delimited, with no
-    newline after it and a blank as the last character (so that the current token is empty at end of input):
-    the tokenizer loops at end of input (tokenizer.rs next_token_until / remove_here_end_tag)"""
+    """class of KF-C19-empty-heredoc-tag-hang, granted only to a case that really does not return: the
+    input ends on the line of a here-doc operator (no newline after the last `<<`). Every such hang seen
+    has an effectively empty here tag ('' "" "'" '"', or a blank inside $( ) where blanks are kept) and
+    loops in tokenizer.rs next_token_until / remove_here_end_tag in state NextLineIsHereDoc."""
     return HANG_RE.search(line) is not None
+
+
+def hang_predicted(line):
+    """narrow syntactic prediction of such a loop (0.7 GB/s of allocation): these lines are kept out of
+    the batches and a bounded sample of them is run one per process"""
+    return PREDICT_RE.search(line) is not None
 
 
 def known_class(line, hcode):
@@ -152,7 +160,7 @@ def run_harness(harness, lines, hang_ms=2000, confirm=True):
             pos = bad + 1
             continue
         # confirm on its own with a longer limit
-        e["VERIF_HANG_MS"] = str(4 * hang_ms)
+        e["VERIF_HANG_MS"] = str(2 * hang_ms)
         p2 = subprocess.run([harness, "hl"], input=(lines[bad] + "\n").encode(), stdout=subprocess.PIPE,
                             stderr=subprocess.DEVNULL, env=e, preexec_fn=_limits)
         g2 = [x for x in p2.stdout.decode("utf-8", "replace").split("\n") if x]
@@ -176,8 +184,8 @@ def eval_batch(args):
     cases = [[c[0], c[1], with_variant(c[2])] for c in cases]
     suspects = []
     if not suspects_too:
-        suspects = [c for c in cases if hang_class(c[0])]
-        cases = [c for c in cases if not hang_class(c[0])]
+        suspects = [c for c in cases if hang_predicted(c[0])]
+        cases = [c for c in cases if not hang_predicted(c[0])]
     lines = [core.enc_case(c) for c in cases]
     impl = run_harness(harness, lines) if not suspects_too else run_harness(harness, lines, hang_ms=1000, confirm=False)
     res = {"n": len(cases), "suspects": suspects, "mism": [], "specv": [], "hyp": {}, "nontrivial": set(), "panic": 0, "spans_hist": {},
@@ -435,6 +443,7 @@ FIXED = [
     "echo \"a\\\"b\" 'c' $d ${e} $((1+2)) $(f) `g` #h", "echo a#b #c", "echo 😀😀 | 😀", "((1+2))", "[[ a == b ]]", "echo @(a|b) !(c)",
     "a=(1 2 3)", "a+=(é)", "echo <(ls) >(cat)", "\n\n", "   ", "\t", ";", ";;", "&", "|", "echo x", "echo 　 é",
     "\u0085", "é", "echo \"$(\")\"", "echo $(echo ')')", "echo \"`echo \"a\"`\"", "$", "$$", "$(", "$()", "``", "$(())", "${}", "$[", "$[]",
+    "cat <<'' ", "x <<-\"\" ; y\t", "$(<<  ", "<<$(  ", "<<'' #", "<<\"'\" ", "echo `<<  `", "cat <<''", "cat <<'' x",
 ]
 
 
@@ -460,6 +469,9 @@ def random_cases(rng, n_lines, maxcursors):
 def fixed_cases():
     out = []
     for s in FIXED:
+        if hang_class(s):          # possible tokenizer loop (seconds each): one cursor is enough
+            out.append([s, "0", ""])
+            continue
         for c in cursors_of(s):
             out.append([s, str(c), ""])
         out.append([s, "0", "sh"])
@@ -503,7 +515,21 @@ def all_batches(ctx, rng, scale=1):
     if quick:
         yield from exhaustive_batches(4, 5)
     else:
-        yield from exhaustive_batches(4, 6)
+        # length 6 is 64 M lines: stop handing out prefixes when the tier's time budget is used up and
+        # say in the evidence how far the enumeration got (lengths <= 5 are always complete)
+        import time
+        t0 = time.time()
+        budget = float(os.environ.get("VERIF_C19_BUDGET_S", "1200"))
+        done = total = 0
+        for d in exhaustive_batches(4, 6):
+            if d[1] == 6:
+                total += 1
+                if time.time() - t0 > budget:
+                    continue
+                done += 1
+            yield d
+        ctx.notes.append("exhaustive length 6: %d of %d three-symbol prefixes enumerated within the %d s budget"
+                         % (done, total, budget))
 
 
 def run(ctx):
@@ -516,7 +542,7 @@ def run(ctx):
     if xbad:
         raise core.CheckBroken("extracted runner and vm_compute disagree on %r: %r vs %r" % (xcases[xbad[0]], ce[xbad[0]], rnd[xbad[0]][2]))
     # the Coq spec (spec_code) agrees with the python oracle on the code's spans of the fixed cases
-    fc = [c for c in fixed_cases() if not hang_class(c[0])]
+    fc = [c for c in fixed_cases() if not hang_predicted(c[0])]
     impl = ctx.impl("hl", [[c[0], c[1], with_variant(c[2])] for c in fc], env=ENV)
     sc, exp = [], []
     for c, o in zip(fc, impl):
@@ -537,7 +563,8 @@ def run(ctx):
                 "length %d, one rotating cursor beyond), %d fixed lines (upstream regressions, here-docs, nested substitutions, "
                 "unterminated constructs) with every cursor, grammar-generated and mutated lines (bash and sh mode) with every / "
                 "sampled cursor; non-trivial = the highlighter returned at least two spans or panicked (counted per batch on "
-                "distinct lines)" % (len(ALPHA), "".join(ALPHA), maxlen, maxlen - 1, len(FIXED)),
+                "distinct lines); the ranges of the spans do not depend on the cursor (theorem c19_ranges_cursor_independent)"
+                % (len(ALPHA), "".join(ALPHA), maxlen, 4, len(FIXED)),
         "samples": [{"line": c[0], "cursor": c[1]} for c in xcases[:3]],
         "distribution": {"spans_per_result(-1=panic)": {str(k): v for k, v in sorted(tot["spans_hist"].items())},
                          "hypothesis_code(0=theorem applies)": {str(k): v for k, v in sorted(tot["hyp"].items(), key=lambda x: str(x[0]))},
@@ -545,7 +572,7 @@ def run(ctx):
                          "all_positions_aligned(hypothesis of the clamped form)": tot.get("aligned", 0),
                          "code_variant(translator)": dict(VARIANT),
                          "panics": tot["panic"], "hangs": tot.get("hang", 0),
-                         "lines_predicted_to_loop(hang_class)": tot.get("suspects_total", 0),
+                         "lines_predicted_to_loop(hang_predicted)": tot.get("suspects_total", 0),
                          "of_which_run(one per process)": tot.get("suspects_run", 0),
                          "property_violations_by_class": tot.get("specv_by_class", {})},
         "extraction_crosscheck": {"cases": len(rnd), "agree": len(rnd) - len(xbad), "coq_spec_vs_python_oracle_cases": len(sc)},
